@@ -135,9 +135,9 @@ def systematic_inputs(ents, rng, auto, nperms, extra_defs=()):
     def fval(f):
         return pg.gen(f["from"]["ty"] if f.get("from") else f["ty"], 0.0)
 
-    def add(eid, val):
+    def add(eid, val, src="ov"):
         perms = [coregen.permute(val, rng) for _ in range(nperms)] if nperms and coregen.count_maps(val) else []
-        out.append({"ty": eid, "val": val, "src": "ov", "grp": "start", "perm": False, "auto": auto, "perms": perms})
+        out.append({"ty": eid, "val": val, "src": src, "grp": "start", "perm": False, "auto": auto, "perms": perms})
 
     for eid, ty in ents:
         if ty[0] == "ref":
@@ -151,6 +151,16 @@ def systematic_inputs(ents, rng, auto, nperms, extra_defs=()):
                         add(eid, coregen.vmap(coregen.dedup([(fm(f), fval(f)) for j, f in enumerate(fs) if j != k])))
                         add(eid, coregen.vmap(coregen.dedup([(fm(f), coregen.vnull() if j == k else fval(f)) for j, f in enumerate(fs)])))
             elif d["kind"] == "enum" and d["tag"]:
+                # a tag of every kind that is not a string, through both value sources (the tag is taken out with Map::remove, which
+                # each source implements itself), next to the members of a variant; and the tag absent
+                v0 = d["variants"][-1]
+                base = [(coregen.effkey(d, f, v0), fval(f)) for f in (v0["fields"] or [])]
+                for tv in (coregen.vnull(), coregen.vint(1), coregen.vint(0), coregen.vneg(-1), coregen.vbool(True), coregen.vfloat(1.5),
+                           coregen.vseq([]), coregen.vseq([coregen.vstr(coregen.G.unraw(v0["ident"]))]), coregen.vmap([]), coregen.vstr("")):
+                    for src in ("json", "ov"):
+                        add(eid, coregen.vmap(coregen.dedup(base + [(d["tag"], tv)])), src)
+                        add(eid, coregen.vmap(coregen.dedup([(d["tag"], tv)] + base)), src)
+                add(eid, coregen.vmap(coregen.dedup(base)), "json")
                 for v in d["variants"]:
                     for tn in vforms(v):
                         for fm in forms[:4]:
